@@ -22,7 +22,8 @@ import gen_common as gc
 DECS = ["1E+2", "0E-7", "-0", "1E+30", "1E-30", "12.3400", "-0.00", "1234567890123456789012345678.9", "NaN", "sNaN",
         "Infinity", "-Infinity", "7E+0", "5E-1", "100", "0.1"]
 STRS = ["a<b", "a&b", "a>b", "]]>", "<![CDATA[x]]>", "&amp;", "&lt;tag&gt;", "&", "&&", "&#65;", "&x", "é€漢😀", '"q\'', "a;b&c;d",
-        "x < y && y > z", "</OFX>", "a&nbsp;b"]
+        "x < y && y > z", "</OFX>", "a&nbsp;b",
+        "&amp;amp; &lt;b&gt;", "Ben&amp;Jerry; Inc. &lt;HQ&gt;", "&amp;#65; &amp; x", "p&amp;ss;w&lt;rd&amp;", "&amp;lt;&lt;"]
 ZONES = [(0, "UTC"), (-300, "EST"), (330, "IST"), (840, "+14"), (-720, None), (-30, "A&B"), (60, "x]y"), (345, "<NPT>"), (1, "a:b")]
 
 
